@@ -4,7 +4,8 @@ Environment stub for C11: `glob.glob(pattern)` answered from an explicit univers
 Model of the operating system (stated in the evidence): a path exists iff it is in UNIVERSE or is a '/'-prefix
 of a member (directories of existing files exist); glob.glob(pattern) returns the existing paths whose segments
 match the pattern's segments one by one, where '*' matches any run of characters except '/', but a segment
-pattern that does not start with '.' never matches a name starting with '.' (glob's hidden-file rule).
+pattern that does not start with '.' never matches a name starting with '.' (glob's hidden-file rule, unless the
+caller passes include_hidden=True).
 Patterns with '?' or '[' are matched with fnmatch's classes, as Python's glob does (only the known-finding obligation
 C11-magic reaches them; the other obligations exclude such names).
 """
@@ -29,8 +30,8 @@ def existing() -> List[str]:
     return out
 
 
-def seg_match(pat: str, name: str) -> bool:
-    if name.startswith(".") and not pat.startswith("."):
+def seg_match(pat: str, name: str, include_hidden: bool = False) -> bool:
+    if name.startswith(".") and not pat.startswith(".") and not include_hidden:
         return False
     if "[" in pat or "?" in pat:
         # fnmatch classes, as Python's glob applies them (concrete pattern; used by the known-finding obligation only)
@@ -40,7 +41,10 @@ def seg_match(pat: str, name: str) -> bool:
     return glob_ref.seg_match(pat, name)
 
 
-def glob(pattern, *a, **k) -> List[str]:
+def glob(pattern, *, root_dir=None, dir_fd=None, recursive=False, include_hidden=False) -> List[str]:
+    """glob.glob's signature; include_hidden switches the hidden-file rule off, as in Python >= 3.11."""
+    if root_dir is not None or dir_fd is not None or (recursive and "**" in str(pattern)):
+        raise NotImplementedError("glob model: root_dir / dir_fd / recursive '**' are not modelled")
     pattern = str(pattern)
     CALLS.append(pattern)
     ps = pattern.split("/")
@@ -51,7 +55,7 @@ def glob(pattern, *a, **k) -> List[str]:
             continue
         ok = True
         for x, y in zip(ps, es):
-            if not seg_match(x, y):
+            if not seg_match(x, y, include_hidden):
                 ok = False
                 break
         if ok:
